@@ -53,6 +53,8 @@ def gen_case(rng):
         c["op"] = ["spectrum", rng.choice(["mean", "sum"])]
     else:
         c["op"] = ["timeseries", rng.choice(["mean", "sum"])]
+    if rng.random() < 0.2:
+        c["t_start_zero"] = True
     if c["op"][0] in ("integrate", "spectrum", "timeseries") and rng.random() < 0.45:
         c["normalize"] = True
         if rng.random() < 0.5 and T * F >= 12:
